@@ -351,9 +351,11 @@ EQUIV = [
     ("f(A, $xD)", "f(A, * as xD)", None),
     ("f(A)=cc", "f(A, #value=cc)", None),
     ("f(A) > g(B) > X", "f(A, g(B, !X))", "x"),
+    ("(f() as r)=cc", "f(!#value as r, #value=cc)", "#value"),
+    ("(f(A) as r)=cc", "f(A, !#value as r, #value=cc)", "#value"),
 ]
 FOCUS_FORMS = ["x", "x:@T", "x as y", "x:@T as y", "*", "#value", "$x", "x=1"]
-CONTEXT_FORMS = ["a", "a:@T", "a as z", "a=1", "$q", "#enter", "a, k", "h(j)"]
+CONTEXT_FORMS = ["a", "a:@T", "a as z", "a=1", "$q", "#enter", "a, k", "h(j)", "#value", "!#value as z", "#value as z, a"]
 RESERVED = {"as"}
 
 
@@ -392,6 +394,8 @@ def u_equivalences(c):
         subs["X"] = FOCUS_FORMS[c.choose(len(FOCUS_FORMS), "focus-form")]
     if "A" in lhs:
         subs["A"] = CONTEXT_FORMS[c.choose(len(CONTEXT_FORMS), "context-form")]
+        if focus is not None:
+            subs["A"] = subs["A"].replace("!", "")  # the law already marks a focus: a second mark is outside the documented equations
     if "D" in lhs:
         subs["D"] = ["", ":@T", "=1", ":@T=1", " "][c.choose(5, "decoration")]
     if "B" in lhs:
